@@ -110,59 +110,95 @@ Proof.
 Qed.
 
 (* ---------------------------------------------------------------- enough fuel: the stream is at least as long as the tree *)
-Definition Le (e : expr) := forall k, (size_e e + List.length k <= List.length (emit_e e k))%nat.
-Definition Les (es : exprs) := forall k, (size_es es + List.length k <= List.length (emit_es es k))%nat.
-Definition Largs (a : args) := forall k, (size_args a + List.length k <= List.length (emit_args a k))%nat.
-Definition Lcmps (c : cmps) := forall k, (size_cmps c + List.length k <= List.length (emit_cmps c k))%nat.
+Fixpoint ntok_names (a : args) : nat :=
+  match a with ANil => 0 | ACons kd _ a' => (match name_of kd with Some _ => 2 | None => 1 end) + ntok_names a' end%nat.
 
-Lemma len_kinds_k : forall a k, (List.length k <= List.length (kinds_k a k))%nat.
-Proof. induction a; intros; cbn [kinds_k List.length]; [lia|]. specialize (IHa k0). lia. Qed.
-Lemma len_names_k : forall a k, (List.length k <= List.length (names_k a k))%nat.
-Proof. induction a; intros; cbn [names_k]; [lia|]. specialize (IHa k0). destruct (name_of k); cbn [List.length]; lia. Qed.
-Lemma len_cmpidx_k : forall c k, (List.length k <= List.length (cmpidx_k c k))%nat.
-Proof. induction c; intros; cbn [cmpidx_k List.length]; [lia|]. specialize (IHc k). lia. Qed.
+Fixpoint ntok_e (e : expr) : nat :=
+  match e with
+  | EName _ _ | EInt _ _ | EStr _ _ => 9
+  | EAttr _ e _ => 9 + ntok_e e
+  | ECall _ f a => 13 + ntok_e f + ntok_args a + len_args a + ntok_names a
+  | EBin _ _ l r => 4 + ntok_e l + ntok_e r
+  | EUnary _ _ e => 9 + ntok_e e
+  | ECompare _ l c => 11 + ntok_e l + len_cmps c + ntok_cmps c
+  | EBoolOp _ _ e1 e2 rest => 11 + ntok_e e1 + ntok_e e2 + ntok_es rest
+  | EIfExp _ t b o => 7 + ntok_e b + ntok_e t + ntok_e o
+  | ETuple _ es | EList _ es => 9 + ntok_es es
+  end%nat
+with ntok_es (es : exprs) : nat := match es with ENil => 0 | ECons e es' => ntok_e e + ntok_es es' end%nat
+with ntok_args (a : args) : nat := match a with ANil => 0 | ACons _ e a' => ntok_e e + ntok_args a' end%nat
+with ntok_cmps (c : cmps) : nat := match c with CNil => 0 | CCons _ e c' => ntok_e e + ntok_cmps c' end%nat.
 
-Ltac len_step :=
-  match goal with
-  | H : forall k, (_ + List.length k <= List.length (?f ?x k))%nat |- context [List.length (?f ?x ?k0)] =>
-      lazymatch goal with
-      | _ : (_ + List.length k0 <= List.length (f x k0))%nat |- _ => fail
-      | _ => pose proof (H k0)
-      end
-  end.
-Ltac len_aux :=
-  repeat match goal with
-  | |- context [List.length (kinds_k ?a ?k)] => lazymatch goal with _ : (List.length k <= List.length (kinds_k a k))%nat |- _ => fail | _ => pose proof (len_kinds_k a k) end
-  | |- context [List.length (names_k ?a ?k)] => lazymatch goal with _ : (List.length k <= List.length (names_k a k))%nat |- _ => fail | _ => pose proof (len_names_k a k) end
-  | |- context [List.length (cmpidx_k ?a ?k)] => lazymatch goal with _ : (List.length k <= List.length (cmpidx_k a k))%nat |- _ => fail | _ => pose proof (len_cmpidx_k a k) end
-  end.
+Lemma len_kinds_k : forall a k, List.length (kinds_k a k) = (len_args a + List.length k)%nat.
+Proof. induction a; intros; cbn [kinds_k List.length len_args]; [lia|]. rewrite IHa. lia. Qed.
+Lemma len_names_k : forall a k, List.length (names_k a k) = (ntok_names a + List.length k)%nat.
+Proof. induction a; intros; cbn [names_k ntok_names]; [lia|]. destruct (name_of k); cbn [List.length]; rewrite IHa; lia. Qed.
+Lemma len_cmpidx_k : forall c k, List.length (cmpidx_k c k) = (len_cmps c + List.length k)%nat.
+Proof. induction c; intros; cbn [cmpidx_k List.length len_cmps]; [lia|]. rewrite IHc. lia. Qed.
 
-Lemma emit_e_length_all : (forall e, Le e) /\ (forall es, Les es) /\ (forall a, Largs a) /\ (forall c, Lcmps c).
+Ltac len_rw :=
+  repeat (cbn [List.length str_k int_k loc_k blk];
+          first [ rewrite len_kinds_k | rewrite len_names_k | rewrite len_cmpidx_k
+                | match goal with H : forall k : list tok, List.length _ = _ |- _ => rewrite H end ]).
+
+Lemma emit_e_length_all :
+  (forall e k, List.length (emit_e e k) = (ntok_e e + List.length k)%nat) /\ (forall es k, List.length (emit_es es k) = (ntok_es es + List.length k)%nat) /\ (forall a k, List.length (emit_args a k) = (ntok_args a + List.length k)%nat) /\ (forall c k, List.length (emit_cmps c k) = (ntok_cmps c + List.length k)%nat).
 Proof.
-  apply expr_all_mut; unfold Le, Les, Largs, Lcmps; intros;
-    cbn [emit_e emit_es emit_args emit_cmps size_e size_es size_args size_cmps str_k int_k loc_k List.length];
-    repeat (progress (repeat len_step; len_aux; cbn [List.length] in * )); lia.
+  apply expr_all_mut; intros;
+    cbn [emit_e emit_es emit_args emit_cmps ntok_e ntok_es ntok_args ntok_cmps];
+    len_rw; unfold str_k, int_k, loc_k, blk; cbn [List.length len_es]; lia.
 Qed.
 
-Definition Ls (s : stmt) := forall k, (size_s s + List.length k <= List.length (emit_s s k))%nat.
-Definition Lss (ss : stmts) := forall k, (size_ss ss + List.length k <= List.length (emit_ss ss k))%nat.
-Definition Lel (el : elifs) := forall k, (size_el el + List.length k <= List.length (emit_elifs el k))%nat.
+Lemma size_le_ntok_all :
+  (forall e, size_e e <= ntok_e e)%nat /\ (forall es, size_es es <= ntok_es es)%nat /\ (forall a, size_args a <= ntok_args a)%nat /\ (forall c, size_cmps c <= ntok_cmps c)%nat.
+Proof. apply expr_all_mut; intros; cbn [size_e size_es size_args size_cmps ntok_e ntok_es ntok_args ntok_cmps]; lia. Qed.
 
-Lemma emit_s_length_all : (forall s, Ls s) /\ (forall ss, Lss ss) /\ (forall el, Lel el).
+Fixpoint ntok_s (s : stmt) : nat :=
+  match s with
+  | SExpr _ e => 2 + ntok_e e
+  | SAssign _ t v => 11 + ntok_es t + ntok_e v
+  | SReturn _ v => 8 + match v with Some e => ntok_e e | None => 0 end
+  | SPass _ => 7
+  | SWhile _ t b0 bs o => 17 + ntok_e t + ntok_s b0 + ntok_ss bs + ntok_ss o
+  | SFor _ t i b0 bs o => 18 + ntok_e t + ntok_e i + ntok_s b0 + ntok_ss bs + ntok_ss o
+  | SIf _ t b0 bs el o =>
+      15 + ntok_e t + ntok_s b0 + ntok_ss bs + ntok_el el + match o with SNil => 0 | SCons _ _ => 5 + ntok_ss o end
+  end%nat
+with ntok_ss (ss : stmts) : nat := match ss with SNil => 0 | SCons s ss' => ntok_s s + ntok_ss ss' end%nat
+with ntok_el (el : elifs) : nat :=
+  match el with LNil => 0 | LCons _ t b0 bs el' => 5 + ntok_e t + ntok_s b0 + ntok_ss bs + ntok_el el' end%nat.
+
+Lemma emit_s_length_all :
+  (forall s k, List.length (emit_s s k) = (ntok_s s + List.length k)%nat) /\ (forall ss k, List.length (emit_ss ss k) = (ntok_ss ss + List.length k)%nat) /\ (forall el k, List.length (emit_elifs el k) = (ntok_el el + List.length k)%nat).
 Proof.
   destruct emit_e_length_all as [He [Hes _]].
-  apply stmt_all_mut; unfold Ls, Lss, Lel; intros;
-    cbn [emit_s emit_ss emit_elifs size_s size_ss size_el blk str_k int_k loc_k List.length];
+  apply stmt_all_mut; intros;
+    cbn [emit_s emit_ss emit_elifs ntok_s ntok_ss ntok_el];
     try match goal with v : option expr |- _ => destruct v end;
-    try match goal with o : stmts |- context [match ?o with SNil => _ | SCons _ _ => _ end] => destruct o end;
-    cbn [emit_s emit_ss emit_elifs size_s size_ss size_el blk str_k int_k loc_k List.length];
-    repeat (progress (repeat len_step;
-      repeat match goal with
-      | |- context [List.length (emit_e ?e ?k0)] =>
-          lazymatch goal with _ : (size_e e + List.length k0 <= _)%nat |- _ => fail | _ => pose proof (He e k0) end
-      | |- context [List.length (emit_es ?e ?k0)] =>
-          lazymatch goal with _ : (size_es e + List.length k0 <= _)%nat |- _ => fail | _ => pose proof (Hes e k0) end
-      end; cbn [List.length] in * )); try lia.
+    try match goal with |- context [match ?o with SNil => _ | SCons _ _ => _ end] => destruct o end;
+    cbn [emit_s emit_ss emit_elifs ntok_s ntok_ss ntok_el];
+    repeat match goal with H : forall k : list tok, List.length (emit_ss (SCons _ _) k) = _ |- _ => cbn [emit_ss ntok_ss] in H end;
+    repeat (cbn [List.length str_k int_k loc_k blk];
+            first [ rewrite He | rewrite Hes
+                  | match goal with H : forall k : list tok, List.length _ = _ |- _ => rewrite H end ]);
+    unfold str_k, int_k, loc_k, blk; cbn [List.length]; lia.
+Qed.
+
+Lemma size_le_ntok_s_all :
+  (forall s, size_s s <= ntok_s s)%nat /\ (forall ss, size_ss ss <= ntok_ss ss)%nat /\ (forall el, size_el el <= ntok_el el)%nat.
+Proof.
+  destruct size_le_ntok_all as [He [Hes _]].
+  apply stmt_all_mut; intros; cbn [size_s size_ss size_el ntok_s ntok_ss ntok_el];
+    repeat match goal with
+    | |- context [size_e ?e] => lazymatch goal with _ : (size_e e <= ntok_e e)%nat |- _ => fail | _ => pose proof (He e) end
+    | |- context [size_es ?e] => lazymatch goal with _ : (size_es e <= ntok_es e)%nat |- _ => fail | _ => pose proof (Hes e) end
+    end;
+    try match goal with v : option expr |- _ => destruct v end;
+    try match goal with |- context [match ?o with SNil => _ | SCons _ _ => _ end] => destruct o end;
+    repeat match goal with
+    | |- context [size_e ?e] => lazymatch goal with _ : (size_e e <= ntok_e e)%nat |- _ => fail | _ => pose proof (He e) end
+    end;
+    cbn [size_ss ntok_ss] in *; lia.
 Qed.
 
 (* ---------------------------------------------------------------- the file level *)
@@ -172,5 +208,5 @@ Proof.
   destruct read_stmt_ok_all as [_ [Hss _]].
   rewrite (Hss ss Hw).
   - reflexivity.
-  - pose proof (proj1 (proj2 emit_s_length_all) ss []) as HL. cbn [List.length] in *. lia.
+  - cbn [List.length]. rewrite (proj1 (proj2 emit_s_length_all) ss []). pose proof (proj1 (proj2 size_le_ntok_s_all) ss). lia.
 Qed.
